@@ -101,7 +101,14 @@ def run_case(case, ctx):
 		txt = fasta_text(recs, t['width'], eol, not t['drop_final_newline'])
 		data = txt.encode('ascii')
 		if t['gzip']:
-			data = gzip.compress(data, compresslevel=t.get('gzlevel', 6), mtime=0)
+			members = t.get('gz_members', 1)
+			if members <= 1 or len(data) < members:
+				data = gzip.compress(data, compresslevel=t.get('gzlevel', 6), mtime=0)
+			else:
+				# multi-member gzip (what bgzip / `cat a.gz b.gz` produce): still a valid gzip file
+				cuts = sorted(random.Random(t['seed']).sample(range(1, len(data)), members - 1))
+				parts = [data[a:b] for a, b in zip([0] + cuts, cuts + [len(data)])]
+				data = b''.join(gzip.compress(p_, compresslevel=t.get('gzlevel', 6), mtime=0) for p_ in parts)
 		tpath = os.path.join(d, 'g' + t['ext'])
 		with open(tpath, 'wb') as f:
 			f.write(data)
@@ -111,6 +118,17 @@ def run_case(case, ctx):
 				return calc_file_signature(kspec, SequenceFile(path, 'fasta', 'auto'))
 			except Exception as e:
 				raise Violation('exception', f'{what}: calc_file_signature raised {type(e).__name__}: {e}', case)
+		if case.get('poison'):
+			# a file that fails part-way through parsing (truncated gzip, after records with prefix hits) must leave no trace
+			ppath = os.path.join(d, 'poison.fa.gz')
+			junk = ('>p\n' + (prefix + 'ACGT' * 8 + 'T') * 300 + '\n').encode() * 3
+			blob = gzip.compress(junk, mtime=0)
+			with open(ppath, 'wb') as f:
+				f.write(blob[:len(blob) - 20])
+			try:
+				calc_file_signature(kspec, SequenceFile(ppath, 'fasta', 'auto'))
+			except Exception:
+				pass
 		sig_base = fsig(base_path, 'baseline file')
 		sig_t = fsig(tpath, 'transformed file')
 		exp = R.ref_signature([c.encode('ascii') for c in contigs], k, prefix.encode())
@@ -147,6 +165,8 @@ def run_case(case, ctx):
 	classes.add('width=' + ('none' if t['width'] is None else '1' if t['width'] == 1 else '2-59' if t['width'] < 60 else '60+'))
 	if any(o != 'fwd' for o in (t['orient'] or [])):
 		classes.add('contig_flipped')
+	if t['gzip'] and t.get('gz_members', 1) > 1:
+		classes.add('gzip_multi_member')
 	if t['gzip'] != t['ext'].endswith('.gz'):
 		classes.add('name_content_mismatch')
 	classes.add('ext=' + (t['ext'] or 'none'))
@@ -155,6 +175,8 @@ def run_case(case, ctx):
 	if any(set(c.upper()) - set('ACGT') for c in contigs):
 		classes.add('non_acgt')
 	classes.add(f'contigs={min(len(contigs), 4)}')
+	if case.get('poison'):
+		classes.add('after_failed_file')
 	if any(len(c) > 8192 for c in contigs):
 		classes.add('contig>8KiB')
 	return {'nontrivial': bool(exp) and len(contigs) >= 2, 'classes': sorted(classes)}
@@ -222,10 +244,11 @@ def gen_case(draw, tier):
 		'drop_final_newline': draw(st.booleans()),
 		'gzip': draw(st.booleans()),
 		'gzlevel': draw(st.sampled_from([1, 6, 9])),
+		'gz_members': draw(st.sampled_from([1, 1, 2, 3])),
 		'ext': draw(st.sampled_from(['.fasta', '.fa', '.fna', '.fasta.gz', '.gz', '.txt', '', '.fa.gz'])),
 		'headers': draw(st.lists(st.text(alphabet='abcXYZ019_.| =-', min_size=1, max_size=20), min_size=0, max_size=3)),
 	}
-	return {'kind': 'genome', 'k': k, 'prefix': prefix, 'contigs': contigs, 'transform': transform}
+	return {'kind': 'genome', 'k': k, 'prefix': prefix, 'contigs': contigs, 'transform': transform, 'poison': draw(st.sampled_from([False, True, False]))}
 
 
 def strategy(tier):
